@@ -37,12 +37,18 @@ type wEnt struct {
 	I int `json:"i"`
 	T int `json:"t"`
 }
+type wSnap struct {
+	I    int `json:"i"`
+	T    int `json:"t"`
+	From int `json:"from"`
+}
 type wRd struct {
 	Has   bool   `json:"has"`
 	Saved bool   `json:"saved"`
 	Ents  []wEnt `json:"ents"`
 	Cents []wEnt `json:"cents"`
 	Acks  []int  `json:"acks"`
+	Snap  wSnap  `json:"snap"`
 }
 type wState struct {
 	LL      [][]int
@@ -55,6 +61,8 @@ type wState struct {
 	Rd      wRd
 	Acks    []int
 	Match   []int
+	Snapi   int
+	Usnap   wSnap
 }
 type wAct struct {
 	A    string `json:"a"`
@@ -64,6 +72,8 @@ type wAct struct {
 	Ents []int  `json:"ents"`
 	Lc   int    `json:"lc"`
 	Br   string `json:"br"`
+	I    int    `json:"i"`  // snap: index
+	St   int    `json:"st"` // snap: term
 }
 
 func (a wAct) String() string {
@@ -72,6 +82,8 @@ func (a wAct) String() string {
 		return fmt.Sprintf("app(term %d, prev %d/%d, ents %v, commit %d)[%s]", a.T, a.Prev, a.Pt, a.Ents, a.Lc, a.Br)
 	case "hb":
 		return fmt.Sprintf("heartbeat(term %d, commit %d)", a.T, a.Lc)
+	case "snap":
+		return fmt.Sprintf("snapshot(term %d, index %d/%d)[%s]", a.T, a.I, a.St, a.Br)
 	}
 	return a.A
 }
@@ -82,10 +94,10 @@ func parseWState(raw json.RawMessage) (wState, error) {
 	if err := json.Unmarshal(raw, &parts); err != nil {
 		return s, err
 	}
-	if len(parts) != 10 {
+	if len(parts) != 12 {
 		return s, fmt.Errorf("state has %d components", len(parts))
 	}
-	dst := []interface{}{&s.LL, &s.Term, &s.Stable, &s.Offs, &s.Unst, &s.Commit, &s.Applied, &s.Rd, &s.Acks, &s.Match}
+	dst := []interface{}{&s.LL, &s.Term, &s.Stable, &s.Offs, &s.Unst, &s.Commit, &s.Applied, &s.Rd, &s.Acks, &s.Match, &s.Snapi, &s.Usnap}
 	for i, p := range parts {
 		if err := json.Unmarshal(p, dst[i]); err != nil {
 			return s, fmt.Errorf("component %d: %v", i, err)
@@ -142,21 +154,24 @@ type wFail struct {
 }
 
 type wNode struct {
-	rn        *raft.RawNode
-	d         *disk
-	ll        [][]int
-	rd        *raft.Ready
-	rdCopy    []pb.Entry
-	holder    bool // the Ready is a placeholder (HasReady was false)
-	saved     bool
-	match     []int
-	hs        pb.HardState
-	lastAppl  int
-	steps     int
-	fail      *wFail
-	phase     string
-	trail     []string
-	sawAccept bool
+	rn         *raft.RawNode
+	d          *disk
+	ll         [][]int
+	rd         *raft.Ready
+	rdCopy     []pb.Entry
+	holder     bool // the Ready is a placeholder (HasReady was false)
+	saved      bool
+	match      []int
+	hs         pb.HardState
+	lastAppl   int
+	steps      int
+	fail       *wFail
+	phase      string
+	trail      []string
+	sawAccept  bool
+	snapFrom   int // term of the leader whose snapshot the storage starts from
+	rdSnapFrom int
+	pendFrom   map[int]int // snapshot index -> term of the leader that sent it
 }
 
 func newWNode(ll [][]int) *wNode {
@@ -189,7 +204,28 @@ func (n *wNode) guard(branch string, f func()) (ok bool) {
 	return true
 }
 
+// storageTerms: the terms of the entries the storage holds, and the index of the first of them
+func (n *wNode) storageFrom() (int, []int) {
+	first, _ := n.d.FirstIndex()
+	return int(first), n.storageTermsRaw()
+}
+
+// storageTerms: terms by index from 1; what a snapshot stands for (below the first index) is filled from the log of the
+// leader that sent it (0 where unknown)
 func (n *wNode) storageTerms() []int {
+	first, raw := n.storageFrom()
+	r := make([]int, 0, first-1+len(raw))
+	for i := 1; i < first; i++ {
+		t := 0
+		if n.snapFrom >= 1 && i <= len(n.ll[n.snapFrom-1]) {
+			t = n.ll[n.snapFrom-1][i-1]
+		}
+		r = append(r, t)
+	}
+	return append(r, raw...)
+}
+
+func (n *wNode) storageTermsRaw() []int {
 	first, _ := n.d.FirstIndex()
 	last, _ := n.d.LastIndex()
 	var r []int
@@ -210,6 +246,16 @@ func (n *wNode) stepApp(a wAct) {
 	for j, t := range a.Ents {
 		m.Entries = append(m.Entries, pb.Entry{Index: uint64(a.Prev + j + 1), Term: uint64(t), Data: wPayload(a.Prev+j+1, t)})
 	}
+	n.guard(a.Br, func() { _ = n.rn.Step(m) })
+}
+
+func (n *wNode) stepSnap(a wAct) {
+	m := pb.Message{Type: pb.MsgSnap, From: leaderID(a.T), To: 1, Term: uint64(a.T), Snapshot: pb.Snapshot{Data: []byte(fmt.Sprintf("state at %d", a.I)),
+		Metadata: pb.SnapshotMetadata{Index: uint64(a.I), Term: uint64(a.St), ConfState: pb.ConfState{Voters: []uint64{1, 2, 3, 4, 5}}}}}
+	if n.pendFrom == nil {
+		n.pendFrom = map[int]int{}
+	}
+	n.pendFrom[a.I] = a.T
 	n.guard(a.Br, func() { _ = n.rn.Step(m) })
 }
 
@@ -257,7 +303,10 @@ func (n *wNode) ready(br string) (acks []int) {
 			c.Data = append([]byte{}, e.Data...)
 			n.rdCopy = append(n.rdCopy, c)
 		}
-		// the entries handed out for applying: in order, once, and the leader's
+		// the entries handed out for applying: in order, once, and the leader's (a snapshot in the same Ready comes first)
+		if si := int(rd.Snapshot.Metadata.Index); si > n.lastAppl {
+			n.lastAppl = si
+		}
 		T := int(n.rn.Status().Term)
 		for _, e := range rd.CommittedEntries {
 			i, t := int(e.Index), int(e.Term)
@@ -296,6 +345,15 @@ func (n *wNode) save(br string) {
 		n.failf("ready-rewritten", false, br, "the Ready the application holds read %v when it was handed out and reads %v now", its(n.rdCopy), its(rd.Entries))
 	}
 	n.guard(br, func() {
+		if !raft.IsEmptySnap(rd.Snapshot) {
+			if err := n.d.ApplySnapshot(rd.Snapshot); err != nil {
+				panic("storage.ApplySnapshot: " + err.Error())
+			}
+			n.snapFrom = n.pendFrom[int(rd.Snapshot.Metadata.Index)]
+			if int(rd.Snapshot.Metadata.Index) > n.lastAppl {
+				n.lastAppl = int(rd.Snapshot.Metadata.Index) // the state machine is replaced by the snapshot's
+			}
+		}
 		if len(rd.Entries) > 0 {
 			if err := n.d.Append(rd.Entries); err != nil {
 				panic("storage.Append: " + err.Error())
@@ -393,8 +451,13 @@ func (n *wNode) compare(a wAct, want wState, acks []int) {
 	if int(s.Term) != want.Term || int(s.Commit) != want.Commit || int(s.Applied) != want.Applied {
 		n.failf("status", false, a.Br+a.A, "after %s: term/commit/applied %d/%d/%d, model %d/%d/%d", a, s.Term, s.Commit, s.Applied, want.Term, want.Commit, want.Applied)
 	}
-	if st := n.storageTerms(); fmt.Sprint(st) != fmt.Sprint(want.Stable) && !(len(st) == 0 && len(want.Stable) == 0) {
-		n.failf("storage", false, a.Br+a.A, "after %s: storage %v, model %v", a, st, want.Stable)
+	first, raw := n.storageFrom()
+	var wantRaw []int
+	if want.Snapi < len(want.Stable) {
+		wantRaw = want.Stable[want.Snapi:]
+	}
+	if first != want.Snapi+1 || fmt.Sprint(raw) != fmt.Sprint(wantRaw) && !(len(raw) == 0 && len(wantRaw) == 0) {
+		n.failf("storage", false, a.Br+a.A, "after %s: storage holds %v from index %d, model %v from index %d", a, raw, first, wantRaw, want.Snapi+1)
 	}
 	if a.A == "ready" {
 		got := n.rd
@@ -403,6 +466,9 @@ func (n *wNode) compare(a wAct, want wState, acks []int) {
 		}
 		if !sameEnts(its(got.CommittedEntries), append([]wEnt{}, want.Rd.Cents...)) {
 			n.failf("ready-committed", false, "ready", "Ready.CommittedEntries %v, model %v", its(got.CommittedEntries), want.Rd.Cents)
+		}
+		if int(got.Snapshot.Metadata.Index) != want.Rd.Snap.I || int(got.Snapshot.Metadata.Term) != want.Rd.Snap.T {
+			n.failf("ready-snapshot", false, "ready", "Ready.Snapshot %d/%d, model %d/%d", got.Snapshot.Metadata.Index, got.Snapshot.Metadata.Term, want.Rd.Snap.I, want.Rd.Snap.T)
 		}
 		if fmt.Sprint(acks) != fmt.Sprint(want.Rd.Acks) {
 			n.failf("ready-acks", false, "ready", "acknowledged per term %v, model %v", acks, want.Rd.Acks)
@@ -422,6 +488,8 @@ func (n *wNode) do(a wAct, want *wState) {
 		n.stepApp(a)
 	case "hb":
 		n.stepHb(a.T, a.Lc)
+	case "snap":
+		n.stepSnap(a)
 	case "ready":
 		acks = n.ready("ready")
 	case "save":
